@@ -494,6 +494,9 @@ def create_tree_model(id_: str, taxa: dict, arg):
         )
 
         if arg.keep or arg.brlens_init == "tree":
+            # read the branch lengths of the input tree (--brlens_init tree alone
+            # used to build the model with the constant 0.1 and read that back)
+            kwargs["keep_branch_lengths"] = True
             tree_model = UnRootedTreeModel.json_factory(
                 id_, newick, branch_lengths, "taxa", **kwargs
             )
